@@ -33,6 +33,34 @@ fn main() {
             }
         }
     }
+    if id == "GENCORPUS" {
+        let dir = args.get(2).cloned().unwrap_or_else(|| "/verif/corpus".to_string());
+        match vlib::fuzzing::gen_corpus(&dir) {
+            Ok(n) => {
+                println!("{n} corpus files written under {dir}");
+                std::process::exit(0);
+            }
+            Err(e) => {
+                eprintln!("gencorpus: {e}");
+                std::process::exit(2);
+            }
+        }
+    }
+    if id == "FUZZREPLAY" {
+        // vcheck fuzzreplay <target> <file>: run a libFuzzer artifact through the same entry point
+        let target = args.get(2).cloned().unwrap_or_default();
+        let data = args.get(3).and_then(|f| std::fs::read(f).ok()).unwrap_or_default();
+        match vlib::fuzzing::by_name(&target, &data) {
+            Ok(()) => {
+                println!("FUZZREPLAY target={target} result=held");
+                std::process::exit(0);
+            }
+            Err(e) => {
+                println!("FUZZREPLAY target={target} result=violated what={e}");
+                std::process::exit(1);
+            }
+        }
+    }
     let mut tier = Tier::Quick;
     let mut seed: u64 = std::env::var("VERIF_SEED").ok().and_then(|s| s.parse().ok()).unwrap_or(0);
     let mut out: Option<String> = None;
